@@ -207,8 +207,8 @@ theorem C30_rejects (es : Nat) (h : Str) (mr : Int) (fetch : Nat → Fetched)
 
 /-- **authenticity** under a collision-free digest: the pointer was made by `externalize` for the cycle `bs`; WHATEVER the
 store holds at each attempt, anything delivered is exactly the uploaded cycle's data batch and log messages -/
-theorem C30_authentic (env : Env) (hinj : ∀ x y, env.sha x = env.sha y → x = y) (schema : Nat) (bs : List WBatch)
-    (objs : Nat → Option Obj) (mr : Int) (logs : List Log) (d : WBatch)
+theorem C30_authentic {B : Type} (env : Env B) (hinj : ∀ x y, env.sha x = env.sha y → x = y) (schema : Nat) (bs : List WBatch)
+    (objs : Nat → Option (Obj B)) (mr : Int) (logs : List Log) (d : WBatch)
     (hok : resolve schema (some (env.sha (env.ser schema bs))) mr (fun k => view env (objs k)) = .ok (logs, d)) :
     Spec.dataBatches bs = [d] ∧ Spec.logsOf bs = logs ∧ ∀ b ∈ bs, hasLocation b = false := by
   obtain ⟨k, sch, bs', hf, _, hloc, hd, hl⟩ := C30_integrity_sha schema _ mr _ logs d hok
